@@ -347,3 +347,11 @@ def canary(env):
     loopcut.DISPATCH.contracts['LM.while'] = lc
     opt.step(None)
     env.holds('always strictly better', ghost.loss() < lc.L0)
+
+
+# "the value returned is the model loss at the parameters left behind": the step contracts above treat the loss as a ghost function ell
+# of the parameter point, evaluated by RobustModel.loss.  That loss() IS the documented robust loss - sum over ALL residual outputs of
+# kernel_k(|r|^2), one shared kernel serving every output - is the selection contract of c09_kernels.py, discharged in this check too.
+from contracts import c09_kernels as _c09
+obligation('C08.callee.robust_loss', functions=['pypose.optim.optimizer:RobustModel.loss'], max_paths=16,
+           note='callee contract of the loss the LM / GN steps report (same contract function as C09.selection)')(_c09.selection)
